@@ -17,7 +17,7 @@ from ..astutil import dotted, norm, walk_local
 from ..callgraph import CallGraph, effects_of
 from ..core import Ctx, PropSpec, Unsupported
 from ..extract import where
-from ..interp import ExcVal, Obj, Raised, StepLimit
+from ..interp import pub, ExcVal, Obj, Raised, StepLimit
 from ..models import make_interp, model_definition, raw_packet
 
 DEF = "xtce/definitions.py"
@@ -119,6 +119,10 @@ def effect_rule(ctx: Ctx, cg: CallGraph, roots, rule: str, label: str, floor_not
         for e in effs:
             n_eff += 1
             a = allowed_effect(prog, e)
+            if e.root_class.startswith("cell:"):
+                # `nonlocal x; x = ...` in a nested function: allowed iff the activation that owns x is created by the operation
+                # itself (the owner is in the closure analysed) - then x is one of its fresh locals
+                a = e.root_class.split(":", 1)[1] in cl
             prm = e.root if e.root_class == "param" else \
                 (e.root_class.split(":", 1)[1] if e.root_class.startswith("local-alias:") else None)
             if a is False and prm in fi.params and k not in roots and \
@@ -217,7 +221,7 @@ def run_stream(prog, fi, stream, opts):
     index = {bytes(p): i for i, p in enumerate(pkts)}
 
     def parse_stub(selfv, packet, root_container_name=None):
-        raw = packet.attrs["raw_data"]
+        raw = pub(packet, "raw_data")
         i = index[bytes(raw)]
         kind = stream[i]
         packet["IDX"] = i if len(packet) == 0 else ("stale", i, sorted(map(str, packet)))   # must arrive empty (fresh per packet)
@@ -240,7 +244,7 @@ def run_stream(prog, fi, stream, opts):
         if isinstance(y, ExcVal):
             pd = y.kwargs.get("partial_data") if "partial_data" in y.kwargs else (y.attrs or {}).get("partial_data")
             # the report carries the packet object the parser was filling (items AND its raw bytes), not a bare dict of its items
-            is_packet = getattr(pd, "cls", None) == "CCSDSPacket" and "raw_data" in getattr(pd, "attrs", {})
+            is_packet = getattr(pd, "cls", None) == "CCSDSPacket" and pub(pd, "raw_data") is not None
             out.append(("err", pd.get("IDX") if pd is not None else None) if is_packet or pd is None else
                        ("err-without-packet", type(pd).__name__))
         elif isinstance(y, dict):
@@ -297,7 +301,7 @@ def reparse_rule(ctx: Ctx, RULE: str = "R11.7"):
         p2 = h.ev("CCSDSPacket(raw_data=raw)", "packets.py", raw=raw)
         k2, v2 = h.outcome("p.raw_data.read_as_int(16)", "packets.py", p=p2)
         pos_raw = cursor(h, raw)
-        same_obj = p1.attrs.get("raw_data") is raw or p2.attrs.get("raw_data") is p1.attrs.get("raw_data")
+        same_obj = pub(p1, "raw_data") is raw or pub(p2, "raw_data") is pub(p1, "raw_data")
         ok = k1 == "ok" and k2 == "ok" and v1 == v2 and pos_raw == 0 and not same_obj
         ctx.decide(ok, RULE, site, "each parsed packet owns a fresh cursor",
                    f"two packets built from the same raw bytes share a cursor: first read {v1!r}, second read {v2!r}, the raw packet's own "
